@@ -50,6 +50,11 @@ func encodeXterm(key vaxis.Key, deckpam bool, decckm bool) string {
 
 		if key.Keycode < unicode.MaxRune {
 			// Unicode keys
+			if key.Text != "" {
+				// The text may be more than the first code point
+				// (an emoji sequence, a flag)
+				return key.Text
+			}
 			return string(key.Keycode)
 		}
 	}
